@@ -84,7 +84,7 @@ func (c *Chip) doExternalAuthenticate(cmd *Command) result {
 		if err != nil {
 			panic(err)
 		}
-		c.sm = sess
+		c.setSM(sess)
 		c.access = true
 		c.truth.BacCompleted = true
 	}}
